@@ -49,6 +49,20 @@ fn mask_numbers(s: &str) -> String {
     out
 }
 
+fn mask_quoted(s: &str) -> String {
+    let mut out = String::new();
+    let mut in_quote = false;
+    for c in s.chars() {
+        if c == '"' {
+            in_quote = !in_quote;
+            out.push('"');
+        } else if !in_quote {
+            out.push(c);
+        }
+    }
+    out
+}
+
 fn mask_names(s: &str) -> String {
     let mut out = String::new();
     let mut in_tick = false;
@@ -79,10 +93,12 @@ pub fn signature(case: &Case, class: &str, detail: &str) -> String {
         .iter()
         .flat_map(|w| w.module_files().into_iter().map(|(p, _)| p.to_string()))
         .collect();
-    if class.starts_with("panic") || class.starts_with("killed") || class == "step-budget" {
+    if class.starts_with("killed") {
+        feats.push("did-not-finish".into());
+    } else if class.starts_with("panic") || class == "step-budget" {
         // location file + message with numbers masked (line numbers move under unrelated edits)
         let d = detail.split(" at ").collect::<Vec<_>>();
-        let msg = mask_numbers(d.first().copied().unwrap_or(""));
+        let msg = mask_quoted(&mask_numbers(d.first().copied().unwrap_or("")));
         let file = d
             .last()
             .map(|l| l.split(':').next().unwrap_or("").to_string())
